@@ -14,6 +14,7 @@ import (
 	"net"
 	"net/netip"
 	"os"
+	"strings"
 	"sync"
 	"sync/atomic"
 	"time"
@@ -218,9 +219,18 @@ type vfConn struct {
 	blockedWrites atomic.Int32
 	created       string
 	manual        *vfPeer // socket owned by the scripted peer: no reader goroutine, deliveries go to the peer's inbox
+	tcp           bool    // a packet connection handed out by the simulated TCP mux: addresses are *net.TCPAddr
 }
 
-func (c *vfConn) LocalAddr() net.Addr  { return net.UDPAddrFromAddrPort(c.local) }
+func (c *vfConn) addr(ap netip.AddrPort) net.Addr {
+	if c.tcp {
+		return net.TCPAddrFromAddrPort(ap)
+	}
+
+	return net.UDPAddrFromAddrPort(ap)
+}
+
+func (c *vfConn) LocalAddr() net.Addr  { return c.addr(c.local) }
 func (c *vfConn) RemoteAddr() net.Addr { return nil }
 func (c *vfConn) isClosed() bool {
 	select {
@@ -313,7 +323,7 @@ func (c *vfConn) ReadFrom(p []byte) (int, net.Addr, error) {
 				tm.Stop()
 			}
 
-			return copy(p, d.Data), net.UDPAddrFromAddrPort(d.Src), nil
+			return copy(p, d.Data), c.addr(d.Src), nil
 		case <-c.closed:
 			if tm != nil {
 				tm.Stop()
@@ -347,8 +357,16 @@ func (c *vfConn) WriteTo(p []byte, addr net.Addr) (int, error) {
 	if c.isClosed() {
 		return 0, io.ErrClosedPipe
 	}
-	ua, ok := addr.(*net.UDPAddr)
-	if !ok {
+	var dstAP netip.AddrPort
+	switch ta := addr.(type) {
+	case *net.UDPAddr:
+		dstAP = ta.AddrPort()
+	case *net.TCPAddr:
+		if !c.tcp {
+			return 0, errors.New("not a UDP address")
+		}
+		dstAP = ta.AddrPort()
+	default:
 		return 0, errors.New("not a UDP address")
 	}
 	c.sw.mu.Lock()
@@ -395,7 +413,7 @@ func (c *vfConn) WriteTo(p []byte, addr net.Addr) (int, error) {
 			}
 		}
 	}
-	c.sw.emit(c, canonicalAddrPort(ua.AddrPort()), p, false)
+	c.sw.emit(c, canonicalAddrPort(dstAP), p, false)
 
 	return len(p), nil
 }
@@ -714,6 +732,55 @@ func (n *vfNet) InterfaceByName(name string) (*transport.Interface, error) {
 }
 func (n *vfNet) CreateDialer(*net.Dialer) transport.Dialer                   { return nil }
 func (n *vfNet) CreateListenConfig(*net.ListenConfig) transport.ListenConfig { return nil }
+
+// vfSimTCPMux is a TCPMux whose per-ufrag packet connections are endpoints of the switch: the agent gets ICE-TCP
+// passive host candidates whose "TCP connections" are whatever the harness (playing the active peers) injects.
+type vfSimTCPMux struct {
+	sw    *vfSwitch
+	owner string
+	mu    sync.Mutex
+	next  uint16
+	conns map[string]*vfConn
+}
+
+func (m *vfSimTCPMux) Close() error { return nil }
+func (m *vfSimTCPMux) GetConnByUfrag(ufrag string, _ bool, local net.IP) (net.PacketConn, error) {
+	ip, ok := netip.AddrFromSlice(local)
+	if !ok {
+		return nil, errors.New("vfSimTCPMux: bad local IP")
+	}
+	ip = ip.Unmap()
+	m.mu.Lock()
+	defer m.mu.Unlock()
+	key := ufrag + "|" + ip.String()
+	if c, ok := m.conns[key]; ok && !c.isClosed() {
+		return c, nil
+	}
+	m.next++
+	ap := netip.AddrPortFrom(ip, 9000+m.next)
+	c := &vfConn{sw: m.sw, owner: m.owner, local: ap, inbox: make(chan *vfDgram), closed: make(chan struct{}), tcp: true}
+	m.sw.mu.Lock()
+	m.sw.eps[ap] = c
+	m.sw.all = append(m.sw.all, c)
+	m.sw.mu.Unlock()
+	if m.conns == nil {
+		m.conns = map[string]*vfConn{}
+	}
+	m.conns[key] = c
+
+	return c, nil
+}
+
+func (m *vfSimTCPMux) RemoveConnByUfrag(ufrag string) {
+	m.mu.Lock()
+	defer m.mu.Unlock()
+	for k, c := range m.conns {
+		if strings.HasPrefix(k, ufrag+"|") {
+			_ = c.Close()
+			delete(m.conns, k)
+		}
+	}
+}
 
 type vfIface struct {
 	Name  string
